@@ -97,7 +97,10 @@ impl Blob {
 
         // Update blob section header with actual lenght
         let end_offset = writer.physical_position()?;
-        section_header.section_length = length;
+        // The logical section length covers the section header, the blob data
+        // and the padding bytes required for the alignment of the next section.
+        let padding = (4 - length % 4) % 4;
+        section_header.section_length = 16 + length + padding;
         writer.physical_seek(start_offset)?;
         section_header.to_writer(writer)?;
         writer.physical_seek(end_offset)?;
